@@ -1497,6 +1497,15 @@ def rule_transpose_copies(repo, col):
             vals = [a.value for a in body_walk(fn) if isinstance(
                 a, ast.Assign) and any(isinstance(t, ast.Name) and
                                        t.id == e.id for t in a.targets)]
+            # a, b = deepcopy(x), deepcopy(y)
+            for a in body_walk(fn):
+                if isinstance(a, ast.Assign) and isinstance(
+                        a.targets[0], ast.Tuple) and isinstance(
+                        a.value, ast.Tuple) and len(
+                        a.targets[0].elts) == len(a.value.elts):
+                    for t, v in zip(a.targets[0].elts, a.value.elts):
+                        if isinstance(t, ast.Name) and t.id == e.id:
+                            vals.append(v)
             return bool(vals) and all(deep(v, depth + 1) for v in vals)
         return False
     n = 0
@@ -1885,3 +1894,30 @@ def rule_all_samples_counted(repo, col):
               '`%s` returns before the samples are walked: a table with '
               'samples but no observations reports no sample at all'
               % (unparse(early[0], 50) if early else ''))
+
+
+RULE_TEXT['SB-SPARSEFILL'] = (
+    'the sparse pandas export pins the fill value of the frame to 0: a cell '
+    'without a stored entry is a zero of the matrix, not a missing value.')
+
+
+def rule_sparse_fill(repo, col):
+    rule = 'SB-SPARSEFILL'
+    q = 'Table.to_dataframe'
+    if not repo.has_func(TABLE, q):
+        return
+    fn = repo.func(TABLE, q)
+    uses = [c for c in ast.walk(fn) if (isinstance(c, ast.Attribute) and
+                                         c.attr == 'from_spmatrix')]
+    if not uses:
+        col.ok(rule, TABLE, q, 'fill-value', fn,
+               'no frame is built with pandas\' default fill value')
+        return
+    src = unparse(fn, 20000)
+    pinned = 'SparseDtype' in src or 'fillna' in src or 'fill_value' in src
+    col.check(pinned, rule, TABLE, q, 'fill-value', uses[0],
+              'the fill value is pinned to 0',
+              'the frame is built by DataFrame.sparse.from_spmatrix and '
+              'returned as is: its fill value is pandas\' default, which is '
+              'NaN in the installed pandas, so every zero cell of the '
+              'matrix is exported as a missing value')
